@@ -119,7 +119,10 @@ def run_schedule(scn_def, schedule, keep_log=False):
                 break
             if ev.name in ("connect_fail", "disconnected"):
                 raise boot.HarnessError("set-up did not reach Ready: %s" % names)
-        if not isinstance(ws.session._lock, SchedLock):
+        import _thread
+        if isinstance(ws.session._lock, _thread.LockType):
+            # a real lock (created before the scheduler was active) would block the whole process; whatever ELSE the
+            # library uses as its write lock is built from the shimmed primitives and stays under test
             ws.session._lock = SchedLock(sched)
         scn["_send_hook"] = send_hook
         mark = len(sim.log)
